@@ -79,6 +79,8 @@ func runCheck(prop, tier string) int {
 		return runE1(prop, tier)
 	case "C03", "C04", "C07", "C08":
 		return runE3(prop, tier)
+	case "C05", "C06":
+		return runE4(prop, tier)
 	case "C16":
 		return runC16(tier)
 	case "C20":
